@@ -116,6 +116,13 @@ func (f *FuncVC) newFrame(fn *ssa.Function, depth int) *frame {
 				if best >= 0 {
 					li.ord = best + 1
 					li.pos = stmts[best].Pos()
+					// identifiers of loop clauses are resolved inside the loop body (loop variables are in scope there)
+					switch ls := stmts[best].(type) {
+					case *ast.ForStmt:
+						li.pos = ls.Body.Lbrace + 1
+					case *ast.RangeStmt:
+						li.pos = ls.Body.Lbrace + 1
+					}
 				}
 			}
 		}
@@ -809,7 +816,7 @@ func (f *FuncVC) execPanic(fr *frame, st *State, pos token.Pos, what string) {
 		}
 		goal = or(ps...)
 	}
-	f.oblig("panic", st, goal, pos, what+" unreachable (or licensed by a `panics` clause)")
+	f.oblig("panic.explicit", st, goal, pos, what+" unreachable (or licensed by a `panics` clause)")
 }
 
 func (f *FuncVC) execUnOp(fr *frame, st *State, x *ssa.UnOp) {
@@ -1281,6 +1288,11 @@ func (f *FuncVC) convert(st *State, v Val, from, to types.Type, pos token.Pos) V
 		}
 		res.BVOrig = f.define("cvb", sortOf(KBV, tw), bv)
 		res.BVW = tw
+		if x, ok := f.isAndOne(v.T, fw); ok {
+			// (y & 1) converted to an integer: give the value directly, no conversion function needed
+			res.T = f.define("bit0", "Int", "(ite (= ((_ extract 0 0) "+x+") #b1) 1 0)")
+			return res
+		}
 		if fw < tw {
 			if v.IntOrig != "" {
 				res.T = v.IntOrig
@@ -1665,4 +1677,29 @@ func (f *FuncVC) isSmallMod(x string, w int) bool {
 		return false
 	}
 	return m.Cmp(new(big.Int).Lsh(big.NewInt(1), uint(w))) <= 0
+}
+
+// isAndOne recognises (bvand X 1) / (bvand 1 X) (through named definitions) and returns X.
+func (f *FuncVC) isAndOne(t string, w int) (string, bool) {
+	if d, ok := f.defs[t]; ok {
+		t = d
+	}
+	if !strings.HasPrefix(t, "(bvand ") || !strings.HasSuffix(t, ")") {
+		return "", false
+	}
+	one := bvLit(big.NewInt(1), w)
+	body := t[7 : len(t)-1]
+	if strings.HasSuffix(body, " "+one) {
+		x := body[:len(body)-len(one)-1]
+		if balanced(x) {
+			return x, true
+		}
+	}
+	if strings.HasPrefix(body, one+" ") {
+		x := body[len(one)+1:]
+		if balanced(x) {
+			return x, true
+		}
+	}
+	return "", false
 }
